@@ -3,7 +3,7 @@
 import json, os, sys
 V = os.path.dirname(os.path.dirname(os.path.abspath(__file__)))
 
-HOOK_COMMITS = ['e6b7f67', 'dbf5f1c', 'f21fdb3', 'd0a927c']
+HOOK_COMMITS = ['e6b7f67', 'dbf5f1c', 'f21fdb3', 'd0a927c', '0af5427']
 
 CHECKS = {
  'C13': dict(
